@@ -3,6 +3,7 @@ import ast
 
 from ..astutil import norm, const, NO, compare, tail, names
 from ..index import AnalysisError, walk_own
+from ..absint import Explorer, UNKNOWN
 from .common import (site, key, calls_to, method_calls, nodes_with, guard_check, stores_to_name)
 
 MSG = "gunicorn.http.message"
@@ -104,6 +105,47 @@ def find_vars(f):
     return out
 
 
+def short_buffer_reads_on(repo, f, n, X, want, reads, read_nodes, tn):
+    g = f.cfg
+    K = len(want)
+    loops = [w for w in walk_own(f.node) if isinstance(w, ast.While) and any(any(a is w for a in f.module.ancestors(r)) for r in reads)]
+    inside = [w for w in loops if any(a is w for a in f.module.ancestors(n))]
+    if inside:
+        W = inside[-1]
+    else:
+        # the nearest read loop before the comparison whose buffer reaches it unchanged
+        cands = []
+        for w in loops:
+            head = [x for x in g.nodes_of(w) if x.kind == "join"]
+            if not head or not all(g.dominates(head[0], t, follow_exc=False) for t in tn):
+                continue
+            after = [s for s in stores_to_name(f, X) if not any(a is w for a in f.module.ancestors(s.ast)) and any(g.path(head[0], [s], follow_exc=False) is not None and g.path(s, [t], follow_exc=False) is not None for t in tn)]
+            if not after:
+                cands.append(w)
+        if not cands:
+            return False
+        W = max(cands, key=lambda w: getattr(w, "_ord", w.lineno))
+    head = [x for x in g.nodes_of(W) if x.kind == "join"][0]
+    if not any(any(a is W for a in f.module.ancestors(s.ast)) for s in stores_to_name(f, X)):
+        return False            # the loop never refreshes X: nothing to re-decide
+    in_loop = set(x.id for x in g.nodes if x.ast is not None and (x.ast is W or any(a is W for a in f.module.ancestors(x.ast))))
+    in_loop.add(head.id)
+    shorts = set(want[:i] for i in range(K)) | set((want[:i] + b"a")[:K - 1] for i in range(K)) | {b""}
+    for s in sorted(shorts):
+        ex = Explorer(f)
+        try:
+            outs = ex.run(head, {ex.key_of(ast.Name(id=X, ctx=ast.Load())): s}, stop=lambda x: x in read_nodes or (x.id not in in_loop and x.kind not in ("raise", "exit", "noreturn", "handler")))
+        except AnalysisError:
+            return False
+        for o in outs:
+            if o.kind == "stop" and o.detail in read_nodes:
+                continue
+            if o.kind == "raise":
+                continue
+            return False
+    return True
+
+
 # ------------------------------------------------------------------------------- R1
 def r1(ctx):
     repo = ctx.repo
@@ -186,6 +228,12 @@ def r1(ctx):
                 if twin:
                     ctx.ok("C06.R1", site(f, n), "initial evaluation of the loop-carried decision `%s`; re-evaluated after every read inside the loop" % V)
                     continue
+            # (c) evaluated: with fewer than K bytes in hand, the read loop that governs this comparison reads more before
+            # anything is decided -- from the loop head, for every short buffer, no path leaves the loop (or returns)
+            # without having passed a read
+            if isinstance(recv, ast.Name) and short_buffer_reads_on(repo, f, n, recv.id, const(c[2]), reads, read_nodes, tn):
+                ctx.ok("C06.R1", site(f, n), "with fewer than %d bytes the governing read loop reads on before deciding" % K)
+                continue
             fresh = isinstance(recv, ast.Call) and isinstance(recv.func, ast.Attribute) and recv.func.attr == "getvalue"
             loop = f.module.enclosing(n, (ast.While, ast.For))
             in_read_loop = loop is not None and any(any(a is loop for a in f.module.ancestors(r)) for r in reads)
